@@ -215,7 +215,7 @@ theorem step_inv {st : St} (hinv : Inv st) (op : Op) : Inv (step st op).1 := by
     | some s =>
       simp only
       split
-      · exact hinv
+      · split <;> exact hinv
       · exact (scaleSig_creates _ (hinv.wf k s hs)).inv hinv
   | imul k q =>
     simp only [step]
@@ -229,7 +229,7 @@ theorem step_inv {st : St} (hinv : Inv st) (op : Op) : Inv (step st op).1 := by
     | some s =>
       simp only
       split
-      · exact hinv
+      · split <;> exact hinv
       · exact iscaleSig_inv hinv hs _
   | withTimes k t =>
     simp only [step]
